@@ -243,6 +243,26 @@ def gen_hist1(rng, tier, cases):
         ops += qs
         ops += [("trap", v) for v in range(nvars)]
         cases.append(mk1('f64', nvars, nodes, ops, "interp-trap1" + ("-linear" if h % 3 == 0 else "")))
+    # interp-exactdiv (own rng stream): cells whose width q/64 has an odd part q with fl(q * fl(1/q)) != 1 (49, 103, 107, 161, 187, 197:
+    # the divisors on which "multiply by the reciprocal" is NOT the division) and nodal differences that are multiples of q, so that
+    # the slope (right-left)/dx and every later intermediate is a binary64 number and the interpolant must come out exactly
+    # (meshlib.interp_expected demands it bit for bit); queries at the mid-cell and the quarter points
+    g = rng.fork("interp-exactdiv")
+    for h in range(max(2, N // 8)):
+        n = g.range(2, 6); nvars = g.range(1, 3)
+        qs_odd = [g.choice([49, 103, 107, 161, 187, 197]) for _ in range(n - 1)]
+        xs = [Fraction(g.range(-16, 16), 8)]
+        for q in qs_odd: xs.append(xs[-1] + Fraction(q, 64))
+        nodes = [float(x) for x in xs]
+        vals = [[float(g.range(-9, 9)) for _ in range(nvars)]]
+        for q in qs_odd:
+            vals.append([v + float(q * g.choice([-3, -2, -1, 1, 2, 3])) for v in vals[-1]])
+        ops = [("set", k, vals[k]) for k in range(n)]
+        for k in range(n - 1):
+            for num in (1, 2, 3):
+                ops.append(("interp", float(xs[k] + (xs[k + 1] - xs[k]) * Fraction(num, 4))))
+        ops += [("interp", x) for x in nodes]
+        cases.append(mk1('f64', nvars, nodes, ops, "interp-exactdiv"))
     # file round trips
     g = rng.fork("file1")
     for h in range(N // 2):
@@ -430,7 +450,7 @@ def gen_hist2(rng, tier, cases):
 def generate(rng, tier):
     cases = []
     per = 1 if tier == "quick" else 5
-    for f, b in (("hist1-rat", 30000), ("hist1-f64", 12000), ("interp-trap1", 30000), ("interp-trap1-linear", 15000), ("file1", 18000),
+    for f, b in (("hist1-rat", 30000), ("hist1-f64", 12000), ("interp-trap1", 30000), ("interp-trap1-linear", 15000), ("interp-exactdiv", 15000), ("file1", 18000),
                  ("hist2-rat", 45000), ("hist2-f64", 18000), ("index-map", 30000), ("quad2", 14000), ("quad2-bilinear", 14000), ("paths1", 6000), ("paths2", 12000)):
         BUDGET[f] = per * b
     gen_hist1(rng, tier, cases)
